@@ -442,6 +442,28 @@ async fn net_cmd(
                     req.headers_mut().insert("echo-all".into(), "1".into());
                 }
             }
+            if a.get("typed") == Some(&"1") {
+                // the typed client layer (rpc::client::Rpc::unary over the Peer handle, bincode codec): an error status the
+                // remote answers with comes back as rpc::Status, whose peer_id is what the caller sees as its origin
+                let Some(peer) = net.peer(pids[&j]) else { return format!("err notconnected t={}", el()) };
+                let mut client = anemo::rpc::client::Rpc::new(peer);
+                let codec = anemo::rpc::codec::BincodeCodec::<Vec<u8>, Vec<u8>>::default();
+                let r: Result<Response<Vec<u8>>, anemo::rpc::Status> = client.unary(req.map(|b| b.to_vec()), codec).await;
+                return match r {
+                    Ok(resp) => format!(
+                        "typedok st={} from={} t={}",
+                        resp.status().to_u16(),
+                        resp.peer_id().map(|p| name(p)).unwrap_or("?".into()),
+                        el()
+                    ),
+                    Err(st) => format!(
+                        "typederr st={} from={} t={}",
+                        st.status().to_u16(),
+                        st.peer_id().map(|p| name(p)).unwrap_or("?".into()),
+                        el()
+                    ),
+                };
+            }
             let sent = digest(req.body());
             let fut = net.rpc(pids[&j], req);
             let r = match a.get("abandon-us").and_then(|v| v.parse::<u64>().ok()) {
